@@ -33,6 +33,7 @@ type Fault struct {
 	A    int    `json:"a,omitempty"`
 	B    int    `json:"b,omitempty"`
 	Name string `json:"name,omitempty"`
+	Type string `json:"type,omitempty"` // inject: tar member type ("" regular, dir, symlink, link, fifo, char)
 }
 
 type Plan struct {
@@ -151,10 +152,13 @@ func meta(p *Plan) *raft.SnapshotMeta {
 }
 
 // region of a byte position in the clean tar, by our own walk
+var tarTypes = map[string]byte{"dir": tar.TypeDir, "symlink": tar.TypeSymlink, "link": tar.TypeLink, "fifo": tar.TypeFifo, "char": tar.TypeChar}
+
 type member struct {
-	name             string
-	hdrOff, dataOff  int
-	size, paddedEnd  int
+	name            string
+	hdrOff, dataOff int
+	size, paddedEnd int
+	typ             string
 }
 
 func walkTar(b []byte) ([]member, int, error) {
@@ -223,6 +227,17 @@ func rebuildTar(ms []member, src []byte, order []int, rename map[int]string, inj
 	}
 	for _, i := range order {
 		if i < 0 {
+			if tf, ok := tarTypes[inject.typ]; ok {
+				// a member that is not a regular file carries no data
+				h := &tar.Header{Name: inject.name, Mode: 0600, Typeflag: tf}
+				if tf == tar.TypeSymlink || tf == tar.TypeLink {
+					h.Linkname = "state.bin"
+				}
+				if err := tw.WriteHeader(h); err != nil {
+					panic(err)
+				}
+				continue
+			}
 			tw.WriteHeader(&tar.Header{Name: inject.name, Mode: 0600, Size: int64(len(injectData))})
 			tw.Write(injectData)
 			continue
@@ -335,7 +350,7 @@ func (a *archive) apply(f Fault) (verdict, bool) {
 		}
 		order := []int{0, 1, 2}
 		order = append(order[:f.A], append([]int{-1}, order[f.A:]...)...)
-		return verdict{mustReject: true, region: "member-inject", gz: f.B == 1, data: maybeGz(f.B == 1, rebuildTar(a.members, a.plain, order, nil, &member{name: f.Name}, []byte("x")))}, true
+		return verdict{mustReject: true, region: "member-inject", gz: f.B == 1, data: maybeGz(f.B == 1, rebuildTar(a.members, a.plain, order, nil, &member{name: f.Name, typ: f.Type}, []byte("x")))}, true
 	case "sumrm":
 		d := replaceSums(a, func(l []string) []string {
 			if f.A < 0 || f.A >= len(l) {
@@ -497,6 +512,11 @@ func (World) execute(pl simkit.Plan, r *simkit.Run) *simkit.Violation {
 			for _, n := range []string{"extra.txt", "meta.json.orig", "state.bin2"} {
 				if v := run(Fault{Kind: "inject", A: i, B: gz, Name: n}); v != nil {
 					return v
+				}
+				for _, ty := range []string{"dir", "symlink", "link", "fifo", "char"} {
+					if v := run(Fault{Kind: "inject", A: i, B: gz, Name: n, Type: ty}); v != nil {
+						return v
+					}
 				}
 			}
 		}
